@@ -22,7 +22,7 @@ func init() {
 			"(fail-loudly) every registry lookup is comma-ok with an error-returning miss arm; no error result of a recursive / json / sonic call is dropped; " +
 			"(fresh-holders) decode targets (reflect.New) used inside a loop are allocated per entry; " +
 			"(registered-closure) the framework's own persisted types (checkpoint, channel implementations) only contain leaf types that are registered, basic or interfaces.",
-		decided:    []string{"codec-agree", "kind-siblings", "key-codec-symmetric", "registry-bijective", "fail-loudly", "fresh-holders", "registered-closure"},
+		decided:    []string{"codec-agree", "kind-siblings", "key-codec-symmetric", "registry-bijective", "fail-loudly", "fresh-holders", "registered-closure", "visits-all", "pointer-depth", "reflect-zero", "decoded-value-assignable"},
 		notDecided: []string{"deep equality of Unmarshal(Marshal(v)) and v over the recursive value universe (observations: a nil pointer below a non-nil pointer (**T) decodes as a nil outer pointer; interface-typed map keys decode as their JSON types) — no static rule here reports them", "behaviour of sonic/encoding/json", "user types registered at run time"},
 		run:        runC12,
 	})
